@@ -256,6 +256,11 @@ func (g *sgen) presentation(out *[]attrSpec) {
 		*out = append(*out, attrSpec{g.r.Pick("inkscape:label", "sodipodi:nodetypes", "inkscape:connector-curvature"), g.r.Pick("Layer 1", "cc", "0", "x  y")})
 		g.hit("attr:foreign-namespace")
 	}
+	// character references to markup characters in attribute values: repaired in /repo (K63), generated unconditionally
+	if g.r.Chance(1, 14) {
+		*out = append(*out, attrSpec{g.r.Pick("data-x", "title"), "\x00RAW" + g.r.Pick("&#60;", "&#38; x", "&#x3c;b", "a&#x26;")})
+		g.hit("charref-to-markup")
+	}
 	if g.known {
 		switch g.r.Intn(14) {
 		case 0:
@@ -388,6 +393,9 @@ func (g *sgen) textContent(depth int, outer bool) string {
 			if g.known {
 				sb.WriteString(g.r.Pick(" ", "\n", "]]&gt;", "&#60;", "&#38; ", " &#x3C;"))
 				g.hit("known:text-specials")
+			} else if g.r.Chance(1, 4) {
+				sb.WriteString(g.r.Pick("&#60;", "&#38; ", " &#x3C;", "a&#38;b")) // references to markup characters in text (K63, repaired)
+				g.hit("text:charref-to-markup")
 			} else {
 				sb.WriteString(g.word())
 			}
